@@ -236,7 +236,9 @@ class IntronsLeg(object):
                         pos = pos + length + 1 + draw(st.sampled_from([0, 1, 2, 10, 100]))
                     order = list(draw(st.permutations(list(range(ne)))))
                     txs.append({"exons": exons, "order": order, "type": draw(st.sampled_from(["mRNA", "mRNA", "ncRNA"])),
-                                "strand": strand if draw(st.integers(0, 5)) else "."})
+                                "strand": strand if draw(st.integers(0, 5)) else ".",
+                                # an exon may lie on the other strand than its transcript (trans-splicing)
+                                "odd_exon": draw(st.sampled_from([None, None, None, 0, ne - 1]))})
                 genes.append({"strand": strand, "seqid": draw(st.sampled_from(["chr1", "chr2"])), "txs": txs})
             return {"genes": genes, "mode": draw(st.sampled_from(["introns", "splice"])),
                     "merge_attributes": draw(st.integers(0, 3)) > 0, "numeric_sort": draw(st.booleans()),
@@ -269,9 +271,12 @@ class IntronsLeg(object):
                     s, e = t["exons"][k]
                     eid = "%s.e%d" % (tid, k)
                     attrs = {"ID": [eid], "Parent": [tid], "exon_number": [str(k + 8)]}
-                    lines.append("\t".join([g["seqid"], "src", "exon", str(s), str(e), ".", t["strand"], ".",
+                    es = t["strand"]
+                    if t.get("odd_exon") == k:
+                        es = {"+": "-", "-": "+", ".": "+"}[es]
+                    lines.append("\t".join([g["seqid"], "src", "exon", str(s), str(e), ".", es, ".",
                                             "ID=%s;Parent=%s;exon_number=%d" % (eid, tid, k + 8)]))
-                    exs.append({"seqid": g["seqid"], "start": s, "end": e, "ft": "exon", "strand": t["strand"], "attrs": attrs})
+                    exs.append({"seqid": g["seqid"], "start": s, "end": e, "ft": "exon", "strand": es, "attrs": attrs})
                 exs.sort(key=lambda x: x["start"])
                 txmodel.append({"id": tid, "type": t["type"], "strand": t["strand"], "exons": exs})
         text = "\n".join(lines) + "\n"
